@@ -1,6 +1,6 @@
 ------------------------------- MODULE TsrmMC -------------------------------
 EXTENDS Tsrm, Json, IOUtils
-Sec7 == <<"ctor", "lookup", "lookup", "count", "lookup", "dtorfind", "dtorremove">>
+Sec7 == <<"ctor", "lookup", "lookup", "count", "io", "dtorfind", "dtorremove">>
 Sec4 == <<"ctor", "count", "dtorfind", "dtorremove">>
 (* the section sequence measured on the real library by the harness (env SECTIONS_FILE = one-line ndjson file holding the array) *)
 SecMeasured == IF "SECTIONS_FILE" \in DOMAIN IOEnv THEN ndJsonDeserialize(IOEnv.SECTIONS_FILE)[1] ELSE Sec7
